@@ -31,7 +31,7 @@ RULE = (
     " Also: replacing the lifetime model object, parameters first given as integers, inadmissible parameters tried and refused, and after every set_prms the held parameters compared with a fresh model's."
 )
 ASSUMPTIONS = [
-    "finite input alphabets (3 driver versions, 5 parameter versions); depth bound 4-5 quick / 6-7 thorough",
+    "finite input alphabets (5 driver versions, 9 parameter versions incl. integer, inadmissible and half-invalid ones, 3 lifetime-model swaps); full alphabet to depth 3 (quick) / 4 (thorough), an 11-operation sub-alphabet to depth 4-5 (quick) / 6 (thorough)",
     "results compared with 1e-12 relative tolerance against a fresh object (same code, no history) given the current driver and the lifetime parameters the model holds at that moment (read through the public prms property)",
     "changing parameters by assigning attributes directly (not through set_prms) is outside the statement",
 ]
@@ -66,10 +66,18 @@ def drv_series(name, n, extra):
 NAMES = ("stock", "inflow", "outflow")
 
 
-def ops_for(kind, dist):
+def ops_for(kind, dist, reduced=False):
+    if reduced:  # the sub-alphabet used for the deeper searches
+        ops = [dict(op="drv", v=k) for k in range(3)]
+        if kind != "simple":
+            ops += [dict(op="prm", v=0), dict(op="prm", v=1), dict(op="prm", v="A"), dict(op="prm", v="N"), dict(op="prm", v="H"), dict(op="read", what="sf"), dict(op="swap-lm", v=1, how="ctor")]
+        else:
+            ops += [dict(op="drv2", v=k) for k in range(2)]
+        ops.append(dict(op="compute"))
+        return ops
     ops = [dict(op="drv", v=k) for k in range(5)]
     if kind != "simple":
-        ops += [dict(op="prm", v=k) for k in range(4)] + [dict(op="prm", v="A"), dict(op="prm", v="F"), dict(op="prm", v="I"), dict(op="prm", v="N"), dict(op="scribble-param")]
+        ops += [dict(op="prm", v=k) for k in range(4)] + [dict(op="prm", v="A"), dict(op="prm", v="F"), dict(op="prm", v="I"), dict(op="prm", v="N"), dict(op="prm", v="H"), dict(op="scribble-param")]
         ops += [dict(op="read", what="sf"), dict(op="read", what="pdf")]
         # the stock is handed ANOTHER lifetime model object (parameters given to the constructor / set afterwards)
         ops += [dict(op="swap-lm", v=1, how="ctor"), dict(op="swap-lm", v=2, how="set"), dict(op="swap-lm", v=0, how="set")]
@@ -90,6 +98,12 @@ PRM_BAD = {"NormalLifetime": dict(mean=-3.0, std=1.0), "FoldedNormalLifetime": d
 def prm_kwargs(dist, v, dims):
     if v == "I":  # whole numbers given as Python ints
         return dict(PRM_INT[dist])
+    if v == "H":  # the LAST parameter cannot be cast (wrong shape): the call fails half-way
+        kw = dict(PRM_VERSIONS[dist][1])
+        import numpy as _np
+
+        kw[list(kw)[-1]] = _np.ones((7, 7, 7))
+        return kw
     if v == "N":  # an inadmissible value (a sensitivity loop may try it and catch the error)
         return dict(PRM_BAD[dist])
     if v in ("A", "F"):
@@ -219,7 +233,7 @@ def apply_op(st, op, check):
         st.prm = op["v"]
         st.handed = [v for v in kw.values() if hasattr(v, "values")]
         if stt == "raised":
-            if op["v"] == "N":
+            if op["v"] in ("N", "H"):
                 return "prms-refused", None  # whatever the model holds now, the next compute is judged by it
             return fail("raised", f"set_prms raised {info}")
         if check:
@@ -262,7 +276,7 @@ def apply_op(st, op, check):
         stt, info = attempt(lambda: getattr(s.lifetime_model, op["what"]))
         if st.prm is None:
             return ("read-refused" if stt == "raised" else "read-without-prms"), None
-        if st.prm == "N" and stt == "raised":
+        if st.prm in ("N", "H") and stt == "raised":
             return "read-refused", None  # inadmissible parameters: refusing the table is right
         if stt == "raised":
             return fail("raised", f"reading {op['what']} raised {info}")
@@ -464,9 +478,13 @@ def units(tier, seed):
                 for ex in extras:
                     if ex != "p2" and start == "blank":
                         continue
-                    out.append(dict(mode="stock", kind=kind, dist=dist, grid=gname, start=start, depth=depth if ex == "p2" else min(depth, 4), extra=ex, npts=1))
+                    d_here = depth if ex == "p2" else min(depth, 4)
+                    # full alphabet to depth 3 (quick) / 4 (thorough) from the ready state; deeper over the reduced alphabet
+                    if start == "ready":
+                        out.append(dict(mode="stock", kind=kind, dist=dist, grid=gname, start=start, depth=3 if tier == "quick" else 4, extra=ex, npts=1))
+                    out.append(dict(mode="stock", kind=kind, dist=dist, grid=gname, start=start, depth=min(d_here, 6), extra=ex, npts=1, reduced=True))
                     if kind != "simple" and start == "ready" and ex == "p2" and (tier == "thorough" or (ci + gi) % 2 == 0):
-                        out.append(dict(mode="stock", kind=kind, dist=dist, grid=gname, start=start, depth=min(depth, 4), extra=ex, npts=3))
+                        out.append(dict(mode="stock", kind=kind, dist=dist, grid=gname, start=start, depth=3 if tier == "quick" else 4, extra=ex, npts=3))
     sys_combos = [("inflow", "NormalLifetime"), ("stock-lapack", "WeibullLifetime")] if tier == "quick" else [(k, d) for k in dsm_impl.KINDS for d in PRM_VERSIONS if d != "FixedLifetime"]
     for sk, dist in sys_combos:
         for gname in GRIDS:
@@ -480,7 +498,7 @@ def run_unit(u):
     NPTS = u.get("npts", 1)
     grid = GRIDS[u["grid"]]
     if u["mode"] == "stock":
-        ops = ops_for(u["kind"], u["dist"])
+        ops = ops_for(u["kind"], u["dist"], u.get("reduced", False))
         r = bfs.explore(lambda: build_state(u["kind"], u["dist"], grid, u["start"]), ops, apply_op, canon, u["depth"])
     else:
         ops = [dict(op="drv", v=k) for k in range(3)] + [dict(op="prm", v=k) for k in range(4)] + [dict(op="compute")]
